@@ -58,6 +58,7 @@ var (
 	errClosedConn = errors.New("use of closed connection")
 	errWrite      = errors.New("scripted write failure")
 	errRead       = errors.New("scripted read failure")
+	errReset      = errors.New("close: connection reset by peer")
 )
 
 type grant struct {
@@ -90,6 +91,21 @@ type pconn struct {
 	ow       []string // owner handler callbacks
 	cbp      string   // scripted close callbacks that panic: h = handler's per-session one, c = the sessions' one
 	filled   bool     // its send queue was filled up by `fill`
+	ce       string   // conn.Close() returns an error: "1" every call, "f" the first call only (client-side abort, ECONNRESET)
+	np       int      // pushes that reached this session through the owner's ClientSessions (PushMsg)
+	w        *wsess
+}
+
+// wsess: what the owner's ClientSessions holds for a connection — the real session behind a
+// counter of the pushes the owner aims at it
+type wsess struct {
+	pi.IClientSession
+	c *pconn
+}
+
+func (w *wsess) Push(route string, v interface{}) error {
+	w.c.np++ // owner goroutine = the controller
+	return w.IClientSession.Push(route, v)
 }
 
 func (c *pconn) set(b byte) { c.mu.Lock(); c.rdState = b; c.mu.Unlock() }
@@ -160,11 +176,17 @@ func (c *pconn) Write(b []byte) (int, error) {
 func (c *pconn) Close() error {
 	c.mu.Lock()
 	c.nclose++
+	n := c.nclose
 	if !c.closed {
 		c.closed = true
 		close(c.closedCh)
 	}
+	ce := c.ce
 	c.mu.Unlock()
+	if ce == "1" || (ce == "f" && n == 1) {
+		// the socket is gone all the same; the caller only learns that the peer had reset it
+		return errReset
+	}
 	return nil
 }
 
@@ -230,8 +252,12 @@ type tee struct {
 func (t *tee) OnSessionCreate(s pi.IClientSession) {
 	t.h.mu.Lock()
 	c := t.h.opening
+	var fwd pi.IClientSession = s
 	if c != nil {
+		c.w = &wsess{IClientSession: s, c: c}
 		t.h.bySess[s] = c
+		t.h.bySess[c.w] = c
+		fwd = c.w
 	}
 	t.h.mu.Unlock()
 	if c != nil {
@@ -239,7 +265,15 @@ func (t *tee) OnSessionCreate(s pi.IClientSession) {
 		c.ev = append(c.ev, "A")
 		c.mu.Unlock()
 	}
-	t.real.OnSessionCreate(s)
+	t.real.OnSessionCreate(fwd)
+}
+
+// fwd: the session as the owner knows it
+func (t *tee) fwd(s pi.IClientSession) pi.IClientSession {
+	if c := t.h.connOf(s); c != nil && c.w != nil {
+		return c.w
+	}
+	return s
 }
 
 func (t *tee) OnSessionClose(s pi.IClientSession) {
@@ -248,7 +282,7 @@ func (t *tee) OnSessionClose(s pi.IClientSession) {
 		c.ev = append(c.ev, "R")
 		c.mu.Unlock()
 	}
-	t.real.OnSessionClose(s)
+	t.real.OnSessionClose(t.fwd(s))
 }
 
 func (t *tee) ProcessMessage(s pi.IClientSession, m *message.Message) {
@@ -270,7 +304,7 @@ func (t *tee) ProcessMessage(s pi.IClientSession, m *message.Message) {
 		}
 		c.mu.Unlock()
 	}
-	t.real.ProcessMessage(s, m)
+	t.real.ProcessMessage(t.fwd(s), m)
 }
 
 // rec: the owner's ISessionsHandler
@@ -548,7 +582,7 @@ func (h *H) obs(k int, extra string) string {
 		if c.wrParked {
 			wr = "p"
 		}
-		fmt.Fprintf(&sb, "c%d:st=%d,rd=%c,wr=%s,cc=%d,nw=%d,hw=%d,ev=%s,ow=%s", c.k, c.sess.GetStatus(), c.rdState, wr, c.nclose, c.nw, c.hw,
+		fmt.Fprintf(&sb, "c%d:st=%d,rd=%c,wr=%s,cc=%d,nw=%d,hw=%d,np=%d,ev=%s,ow=%s", c.k, c.sess.GetStatus(), c.rdState, wr, c.nclose, c.nw, c.hw, c.np,
 			strings.Join(c.ev, ""), strings.Join(c.ow, ""))
 		c.mu.Unlock()
 		if ck == k {
@@ -644,6 +678,7 @@ func (h *H) exec(op string) string {
 		c = &pconn{k: k, in: make(chan item), rdGrant: make(chan grant), wrGrant: make(chan bool), closedCh: make(chan struct{}),
 			rdState: 'x', hsOK: true}
 		c.cbp, _ = hx.KV(ws, "cbp")
+		c.ce, _ = hx.KV(ws, "ce")
 		h.conns[k] = c
 		h.order = append(h.order, k)
 		h.mu.Lock()
@@ -725,6 +760,43 @@ func (h *H) exec(op string) string {
 		h.css.PushMsg(&msgs.PushMsg{Ids: []uint32{c.sess.GetId()}, Route: "onNews", Data: []byte(`{"n":1}`)})
 		synctest.Wait()
 		return h.obs(k, "")
+	case "mpush":
+		// one PushMsg for several ids: cK = the id connection K has (0 before its add was processed), u<n> = an id nobody has
+		v, _ := hx.KV(ws, "ids")
+		var ids []uint32
+		aimed := map[*pconn]int{}
+		for _, w := range strings.Split(v, ",") {
+			switch {
+			case strings.HasPrefix(w, "c"):
+				n, err := strconv.Atoi(w[1:])
+				tc := h.conns[n]
+				if err != nil || tc == nil {
+					return "none"
+				}
+				if h.css.GetSession(tc.sess.GetId()) != nil {
+					// a push that finds the queue full would park the owner (= the controller): such an op is not run
+					aimed[tc]++
+					tc.mu.Lock()
+					closed := tc.closed
+					tc.mu.Unlock()
+					if room, ok := chanRoom(tc.sess); ok && !closed && tc.sess.GetStatus() != session.StatusClosed && aimed[tc] > room {
+						return "none"
+					}
+				}
+				ids = append(ids, tc.sess.GetId())
+			case strings.HasPrefix(w, "u"):
+				n, err := strconv.Atoi(w[1:])
+				if err != nil {
+					return "none"
+				}
+				ids = append(ids, uint32(3000000000+n))
+			default:
+				return "none"
+			}
+		}
+		h.css.PushMsg(&msgs.PushMsg{Ids: ids, Route: "onNews", Data: []byte(`{"n":3}`)})
+		synctest.Wait()
+		return h.obs(0, "")
 	case "spush":
 		if c == nil || h.wouldBlock(c) {
 			return "none"
@@ -851,13 +923,20 @@ func (g *gen) next(maxConn int) string {
 	R := g.hx.R
 	h := g.h
 	if len(h.order) == 0 || (len(h.order) < maxConn && R.Intn(6) == 0) {
+		op := fmt.Sprintf("open c=%d", len(h.order)+1)
 		switch R.Intn(12) {
 		case 0:
-			return fmt.Sprintf("open c=%d cbp=h", len(h.order)+1)
+			op += " cbp=h"
 		case 1:
-			return fmt.Sprintf("open c=%d cbp=c", len(h.order)+1)
+			op += " cbp=c"
 		}
-		return fmt.Sprintf("open c=%d", len(h.order)+1)
+		switch R.Intn(8) {
+		case 0:
+			op += " ce=1" // closing the socket reports an error (the peer had reset it)
+		case 1:
+			op += " ce=f"
+		}
+		return op
 	}
 	k := h.order[R.Intn(len(h.order))]
 	c := h.conns[k]
@@ -916,6 +995,9 @@ func (g *gen) next(maxConn int) string {
 		if st == 'w' && !closed {
 			return fmt.Sprintf("in c=%d it=f:hb", k)
 		}
+		if R.Intn(2) == 0 {
+			return g.mpush()
+		}
 		return fmt.Sprintf("push c=%d", k)
 	case r < 97:
 		if g.ph[k] < 2 && R.Intn(3) != 0 {
@@ -929,7 +1011,25 @@ func (g *gen) next(maxConn int) string {
 	}
 }
 
+// mpush: one push for several ids: live, gone and never-existing ids mixed in every position
+func (g *gen) mpush() string {
+	R := g.hx.R
+	n := 1 + R.Intn(5)
+	var ids []string
+	for i := 0; i < n; i++ {
+		if R.Intn(3) == 0 {
+			ids = append(ids, fmt.Sprintf("u%d", R.Intn(50)))
+		} else {
+			ids = append(ids, fmt.Sprintf("c%d", g.h.order[R.Intn(len(g.h.order))]))
+		}
+	}
+	return "mpush ids=" + strings.Join(ids, ",")
+}
+
 func (g *gen) disturb(k int) string {
+	if g.hx.R.Intn(5) == 0 {
+		return g.mpush()
+	}
 	switch r := g.hx.R.Intn(20); {
 	case r < 5:
 		return fmt.Sprintf("kick c=%d", k)
